@@ -924,9 +924,9 @@ def run(ck):
                         for md2 in MD_VARIANTS:
                             for ov in (True, False, ONLY_FILES):
                                 n += 1
-                                if not ck.mine(n) and n > 40:
+                                if not ck.mine(n) and n > 40 and md2 is not None:
                                     continue
-                                if ck.tier == "quick" and n > 40 and (n * 2654435761 + ck.seed) % 3:
+                                if ck.tier == "quick" and n > 40 and md2 is not None and (n * 2654435761 + ck.seed) % 3:
                                     continue
                                 if md2 is None and ov is True:
                                     ck.hit("no-write-link-retargeted-without-metadata")
@@ -1026,5 +1026,10 @@ def run(ck):
 #      DirectoryURIVerifier around an MDMFVerifierURI whose to_string()/==/hash raise AssertionError)
 #                                                                    -> derived-cap-unusable, derived-cap-wrong-kind
 #      (an exception inside any derivation block is the verdict "derivation-raises", never a harness crash)
+#  19. seeded C16-5: ProhibitedNode.get_readonly_uri() returns the wrapped node's get_uri() (write cap)
+#                                                                    -> derivation-chain-mismatch, derived-cap-leaks-secret,
+#                                                                       readonly-dir-yields-writeable-child (packed as child)
+#  20. seeded C16-6: Adder.modify decides diminishing from the caller's new_metadata only (a kept no-write link
+#      retargeted with metadata=None holds the write cap)            -> no-write-link-holds-write-cap
 #  inert (equivalent mutant, exit 0): "deep-immutable branch assigns rw_uri = given_rw_uri" alone -- given_rw_uri is
 #  always None there because the earlier branches already returned or moved it.
